@@ -757,6 +757,10 @@ def r4b_which_text_is_compared(ctx):
                 stored = isinstance(n.ast, (ast.Assign, ast.Return)) or n.kind == 'test'
                 sites.append((n, c, kinds, allfacts, stored))
     rep.floor('C02.R4b', 'comparisons in check_got_vs_want', len(sites), 3)
+    # which comparisons run in which situation is read off the conditions that dominate them; a function that leaves early between two
+    # comparisons (`if flag: return flag`) selects by paths instead, which this evaluation does not follow: not judged
+    n_rets = sum(1 for n in g.nodes if not n.dup and n.kind == 'stmt' and isinstance(n.ast, ast.Return))
+    need(n_rets <= 1, 'C02.R4b: check_got_vs_want returns from %d places: which comparison runs in which situation is decided by early exits, not by the conditions around the comparisons' % n_rets)
 
     class _Unknown(Exception):
         pass
